@@ -194,6 +194,77 @@ fn bounds_problem(cfg: &Cfg, cs: &[(u64, usize)]) -> Option<&'static str> {
     None
 }
 
+/// The bup/rsync rolling checksum of every window, from its definition and independent of bitar's
+/// code: the stream is preceded by zero bytes; for the window ending at `e` (exclusive)
+/// s1 = 31w + sum(b_j), s2 = 31w(w-1) + sum((e-j) b_j) over the window (the newest byte has weight 1,
+/// the oldest weight w), digest = s1 << 16 | s2 & 0xffff, all modulo 2^32.  Prefix sums make it
+/// linear: sum((e-j) b_j) = e (A[e]-A[s]) - (B[e]-B[s]) with A = prefix sums of b_j, B of j b_j.
+struct NaiveRollsum {
+    a: Vec<u32>,
+    b: Vec<u32>,
+    w: usize,
+}
+
+impl NaiveRollsum {
+    fn new(data: &[u8], w: usize) -> Self {
+        let mut a = Vec::with_capacity(data.len() + 1);
+        let mut b = Vec::with_capacity(data.len() + 1);
+        let (mut sa, mut sb) = (0u32, 0u32);
+        a.push(0);
+        b.push(0);
+        for (j, &x) in data.iter().enumerate() {
+            sa = sa.wrapping_add(x as u32);
+            sb = sb.wrapping_add((j as u32).wrapping_mul(x as u32));
+            a.push(sa);
+            b.push(sb);
+        }
+        Self { a, b, w }
+    }
+    fn at(&self, e: usize) -> u32 {
+        let w = self.w as u32;
+        let s = e.saturating_sub(self.w);
+        let sum = self.a[e].wrapping_sub(self.a[s]);
+        let weighted = (e as u32).wrapping_mul(sum).wrapping_sub(self.b[e].wrapping_sub(self.b[s]));
+        let s1 = 31u32.wrapping_mul(w).wrapping_add(sum);
+        let s2 = 31u32.wrapping_mul(w).wrapping_mul(w.wrapping_sub(1)).wrapping_add(weighted);
+        (s1 << 16) | (s2 & 0xffff)
+    }
+}
+
+/// C09's rule judged on the implementation's chunks of a RollSum configuration, without bitar and
+/// without the model: every chunk but the last ends at the first length >= max(min, 1) whose
+/// trailing-window checksum has all filter bits set, or else at the maximum.
+fn rollsum_rule_problem(cfg: &Cfg, data: &[u8], cs: &[(u64, usize)]) -> Option<&'static str> {
+    let (bits, mn, mx, w) = match *cfg {
+        Cfg::Roll(b, mn, mx, w) => (b, mn, mx, w),
+        _ => return None,
+    };
+    if bits == 0 || bits > 31 {
+        return None;
+    }
+    let naive = NaiveRollsum::new(data, w);
+    let mask: u32 = !0u32 >> (32 - bits);
+    let hit = |end: usize| {
+        let v = naive.at(end);
+        v | mask == v
+    };
+    for (i, &(off, len)) in cs.iter().enumerate() {
+        let off = off as usize;
+        let last = i + 1 == cs.len();
+        let lo = mn.max(1);
+        // no earlier admissible length is a boundary
+        for l in lo..len.min(mx) {
+            if hit(off + l) {
+                return Some("boundary-missed-where-the-window-checksum-has-all-filter-bits-set");
+            }
+        }
+        if !last && len < mx && !(len >= lo && hit(off + len)) {
+            return Some("boundary-placed-where-the-window-checksum-lacks-filter-bits");
+        }
+    }
+    None
+}
+
 fn rand_script(rng: &mut Rng, len: usize) -> (Vec<Rd>, usize) {
     let style = rng.below(7);
     let default_read = match style {
@@ -230,6 +301,9 @@ async fn one_case(cfg: &Cfg, segs: &[Seg], script: Vec<Rd>, default_read: usize,
     if let Some(p) = bounds_problem(cfg, &cs) {
         problems.push(p);
     }
+    if let Some(p) = rollsum_rule_problem(cfg, &data, &cs) {
+        problems.push(p);
+    }
     for p in problems {
         h::emit_oracle_fail(p, &req);
     }
@@ -259,6 +333,7 @@ async fn one_case(cfg: &Cfg, segs: &[Seg], script: Vec<Rd>, default_read: usize,
 
 #[derive(Default)]
 struct Stats {
+    wide_filter: usize,
     cases: usize,
     chunks: usize,
     multi: usize,
@@ -277,6 +352,7 @@ impl Stats {
         h::emit_stat("cases_with_cut_by_hash", self.cut_by_hash);
         h::emit_stat("cases_with_more_than_3_reads", self.fragmented);
         h::emit_stat("cases_with_chunk_larger_than_refill_buffer", self.chunk_over_refill);
+        h::emit_stat("cases_with_more_than_16_filter_bits_on_megabytes", self.wide_filter);
     }
 }
 
@@ -414,6 +490,18 @@ pub async fn c09(seed: u64, thorough: bool) {
         let (script, dr) = rand_script(&mut rng, target);
         one_case(&cfg, &segs, script, dr, &mut st, true).await;
     }
+    // (c0) wide filters: more than 16 filter bits with windows large enough for the second accumulator to
+    // exceed 16 bits, on enough random data for hash boundaries to occur
+    let n_wide = if thorough { 6 } else { 2 };
+    for i in 0..n_wide {
+        let bits = 17 + (i as u32 % 3);
+        let w = [32usize, 64, 48][i % 3];
+        let cfg = Cfg::Roll(bits, if i % 2 == 0 { 0 } else { 1000 }, 4 << 20, w);
+        let total = (1usize << 20) + 300_000 * (i + 1);
+        let segs = vec![Seg::Rand(4242 + i as u64, total)];
+        one_case(&cfg, &segs, vec![Rd::Bytes(70_000), Rd::Pending], usize::MAX / 2, &mut st, false).await;
+        st.wide_filter += 1;
+    }
     // (c) large: chunks larger than the 1 MiB refill buffer, reads around the buffer size
     let n_large = if thorough { 6 } else { 1 };
     for i in 0..n_large {
@@ -497,7 +585,117 @@ pub async fn c10(seed: u64, thorough: bool) {
             }
         }
     }
+    // windows of several KiB (larger than the maximum chunk size, which RollSum permits): the resync oracle
+    // and the independent rule oracle on the implementation alone (the list-based model would take
+    // window x length steps here; the hash-level suite ties these windows to the model)
+    let n_big = if thorough { 8 } else { 2 };
+    let mut n_big_common = 0usize;
+    for i in 0..n_big {
+        let w = [8192usize, 16384, 32768, 6000][i % 4];
+        let cfg = Cfg::Roll(9 + (i as u32 % 3), 64, 4096, w);
+        let s_data = lcg_bytes(500 + i as u64, 140_000);
+        let p1 = lcg_bytes(700 + i as u64, 3000 + 517 * i);
+        let p2 = if i % 2 == 0 { vec![] } else { lcg_bytes(900 + i as u64, 1234) };
+        let (mut da, mut db) = (p1.clone(), p2.clone());
+        da.extend_from_slice(&s_data);
+        db.extend_from_slice(&s_data);
+        let desc = format!("chunk-pair {} S=r{}:{} P1=r{}:{} P2={}", cfg.token(), 500 + i, s_data.len(), 700 + i, p1.len(), p2.len());
+        println!("TRY\t{}", desc);
+        let (ca, _, mut pa) = real_chunks(&cfg, &da, vec![], usize::MAX / 2).await;
+        let (cb, _, pb) = real_chunks(&cfg, &db, vec![], usize::MAX / 2).await;
+        pa.extend(pb);
+        if let Some(p) = rollsum_rule_problem(&cfg, &da, &ca) {
+            pa.push(p);
+        }
+        for p in pa {
+            h::emit_oracle_fail(p, &desc);
+        }
+        let (l1, l2) = (p1.len(), p2.len());
+        let ends_a: Vec<usize> = ca.iter().map(|(o, l)| *o as usize + l).filter(|e| *e >= l1 + w).map(|e| e - l1).collect();
+        let ends_b: Vec<usize> = cb.iter().map(|(o, l)| *o as usize + l).filter(|e| *e >= l2 + w).map(|e| e - l2).collect();
+        if let Some(first) = ends_a.iter().find(|e| ends_b.contains(e) && **e < s_data.len()) {
+            n_big_common += 1;
+            let ta: Vec<usize> = ends_a.iter().cloned().filter(|e| e >= first).collect();
+            let tb: Vec<usize> = ends_b.iter().cloned().filter(|e| e >= first).collect();
+            if ta != tb {
+                h::emit_oracle_fail("no-resync-after-common-boundary", &desc);
+            }
+        }
+    }
+    h::emit_stat("large_window_pairs", n_big);
+    h::emit_stat("large_window_pairs_with_common_boundary", n_big_common);
     st.emit();
     h::emit_stat("pairs_with_common_boundary", n_common);
     h::emit_stat("pairs_with_nonempty_identical_continuation", n_resync);
+}
+
+
+/// Hash level (C09 / C10): the rolling hashes themselves, all 32 bits of every sum, driven as the
+/// chunker drives them, for windows from 1 to several thousand bytes (digest bits beyond 16 matter only
+/// for wide filters; large windows make the second RollSum accumulator exceed 16 bits).
+#[cfg(oll3_bita_verif)]
+pub async fn hash_suite(seed: u64, thorough: bool) {
+    use bitar::verif_rolling_hash::{BuzHash, RollSum, RollingHash};
+    let mut rng = Rng::new(seed ^ 0x4A54);
+    let n = if thorough { 20000 } else { 2500 };
+    let mut wide = 0usize;
+    for i in 0..n {
+        let w = if i < (if thorough { 12 } else { 4 }) {
+            // windows of several KiB: the true second accumulator exceeds 32 bits while the window fills
+            [8192usize, 16384, 6000, 40000][i % 4]
+        } else { match rng.below(6) {
+            0 => rng.range(1, 4) as usize,
+            1 => *rng.pick(&[8usize, 16, 31, 32, 33, 64]),
+            2 => rng.range(20, 300) as usize,
+            3 => *rng.pick(&[1000usize, 4096, 5000]),
+            _ => rng.range(1, 80) as usize,
+        } };
+        let roll = i % 2 == 0 || w >= 6000;
+        let target = if w >= 6000 { w * 2 + 1000 } else { match rng.below(5) {
+            0 => rng.below(w as u64 + 3) as usize,
+            1 => w * 2 + rng.below(50) as usize,
+            _ => rng.range(1, 3000) as usize,
+        } };
+        let segs = if w >= 6000 { vec![Seg::Rand(i as u64 + 9, target)] } else { rand_segs(&mut rng, target, w.max(1)) };
+        let data = segs_bytes(&segs);
+        let req = format!("hash {} {} {}", if roll { "R" } else { "B" }, w, if data.is_empty() { "-".to_string() } else { segs_token(&segs) });
+        println!("TRY\t{}", req);
+        let mut sums: Vec<u32> = Vec::with_capacity(data.len());
+        let r = h::catch(|| {
+            if roll {
+                let mut hs = RollSum::new(w);
+                for &b in &data {
+                    if hs.init_done() { hs.input(b) } else { hs.init(b) }
+                    sums.push(hs.sum());
+                }
+            } else {
+                let mut hs = BuzHash::new(w);
+                for &b in &data {
+                    if hs.init_done() { hs.input(b) } else { hs.init(b) }
+                    sums.push(hs.sum());
+                }
+            }
+        });
+        if r.is_err() {
+            h::emit_case(&req, "panic");
+            continue;
+        }
+        if sums.iter().any(|s| s >> 16 != 0) {
+            wide += 1;
+        }
+        let mut le = Vec::with_capacity(sums.len() * 4);
+        for s_ in &sums {
+            le.extend_from_slice(&s_.to_le_bytes());
+        }
+        let shown = if sums.len() <= 24 { h::join(&sums.iter().map(|x| x.to_string()).collect::<Vec<_>>(), ",") } else { "-".into() };
+        h::emit_case(&req, &format!("sums={} last={} all={}", h::digest(&le), sums.last().copied().unwrap_or(0), shown));
+    }
+    h::emit_stat("hash_traces", n);
+    h::emit_stat("traces_with_sum_bits_above_16", wide);
+}
+
+#[cfg(not(oll3_bita_verif))]
+pub async fn hash_suite(_seed: u64, _thorough: bool) {
+    eprintln!("the hash suite needs the harness built with --cfg oll3_bita_verif");
+    std::process::exit(2);
 }
